@@ -580,3 +580,108 @@ func SoloEnd(how string) {
 		soloFail("LIBRARY_BLOCKED", soloHeld[len(soloHeld)-1]+" still held after call "+how, map[string]string{"how": how})
 	}
 }
+
+type AtomicUint32 struct{ v atomic.Uint32 }
+
+func (a *AtomicUint32) Load() uint32 { atomPoint(unsafe.Pointer(a), true, false); return a.v.Load() }
+func (a *AtomicUint32) Store(x uint32) {
+	atomPoint(unsafe.Pointer(a), false, true)
+	a.v.Store(x)
+}
+func (a *AtomicUint32) Add(d uint32) uint32 {
+	atomPoint(unsafe.Pointer(a), true, true)
+	return a.v.Add(d)
+}
+func (a *AtomicUint32) Swap(x uint32) uint32 {
+	atomPoint(unsafe.Pointer(a), true, true)
+	return a.v.Swap(x)
+}
+func (a *AtomicUint32) CompareAndSwap(o, n uint32) bool {
+	atomPoint(unsafe.Pointer(a), true, true)
+	return a.v.CompareAndSwap(o, n)
+}
+
+type AtomicUint64 struct{ v atomic.Uint64 }
+
+func (a *AtomicUint64) Load() uint64 { atomPoint(unsafe.Pointer(a), true, false); return a.v.Load() }
+func (a *AtomicUint64) Store(x uint64) {
+	atomPoint(unsafe.Pointer(a), false, true)
+	a.v.Store(x)
+}
+func (a *AtomicUint64) Add(d uint64) uint64 {
+	atomPoint(unsafe.Pointer(a), true, true)
+	return a.v.Add(d)
+}
+func (a *AtomicUint64) Swap(x uint64) uint64 {
+	atomPoint(unsafe.Pointer(a), true, true)
+	return a.v.Swap(x)
+}
+func (a *AtomicUint64) CompareAndSwap(o, n uint64) bool {
+	atomPoint(unsafe.Pointer(a), true, true)
+	return a.v.CompareAndSwap(o, n)
+}
+
+// AtomicPointer simulates atomic.Pointer[T].
+type AtomicPointer[T any] struct{ v atomic.Pointer[T] }
+
+func (a *AtomicPointer[T]) Load() *T { atomPoint(unsafe.Pointer(a), true, false); return a.v.Load() }
+func (a *AtomicPointer[T]) Store(x *T) {
+	atomPoint(unsafe.Pointer(a), false, true)
+	a.v.Store(x)
+}
+func (a *AtomicPointer[T]) Swap(x *T) *T {
+	atomPoint(unsafe.Pointer(a), true, true)
+	return a.v.Swap(x)
+}
+func (a *AtomicPointer[T]) CompareAndSwap(o, n *T) bool {
+	atomPoint(unsafe.Pointer(a), true, true)
+	return a.v.CompareAndSwap(o, n)
+}
+
+// ---------------------------------------------------------------------------
+// WaitGroup
+
+type WaitGroup struct {
+	real sync.WaitGroup
+	n    int
+	vc   vclock
+	ord  int32
+}
+
+func (w *WaitGroup) canProceed(t *task) bool { return w.n <= 0 }
+
+func (w *WaitGroup) Add(d int) {
+	if !active || cur == nil {
+		w.real.Add(d)
+		return
+	}
+	t := cur
+	nextOrd(&w.ord)
+	point(t, -1, ClsSync, true)
+	w.n += d
+	if w.n < 0 {
+		panic("sync: negative WaitGroup counter")
+	}
+	if d < 0 {
+		w.vc.join(&t.vc)
+		t.vc[t.id]++
+	}
+	logEv('W', uint64(t.id), uint64(w.ord), uint64(w.n))
+}
+
+func (w *WaitGroup) Done() { w.Add(-1) }
+
+func (w *WaitGroup) Wait() {
+	if !active || cur == nil {
+		w.real.Wait()
+		return
+	}
+	t := cur
+	nextOrd(&w.ord)
+	point(t, -1, ClsSync, true)
+	if w.n > 0 {
+		block(t, w)
+	}
+	t.vc.join(&w.vc)
+	logEv('w', uint64(t.id), uint64(w.ord), 0)
+}
